@@ -19,6 +19,7 @@ fields(f"{M}:HtmlToAst", struct="Tree")
 # Attribute (a dict subclass) stays opaque; `_truthy` / `_str` are ghost fields standing for bool(attrs) (non-empty) and str(attrs)
 fields("builtins:Attrs", _opaque="int", _truthy="bool", _str="str")
 fields("builtins:TerminalClass", _opaque="int")
+fields("builtins:Overrides", _opaque="int")  # dict[str, Callable]: only `name in overrides` is modelled (opaque, pure)
 
 
 @spec
@@ -274,6 +275,19 @@ contract(
     f"{M}:VoidTag.render",
     ensures=["result == '<' + self.name + (' ' if self.attrs else '') + str(self.attrs) + '>'"],
     pure=True, returns="str", properties=["C16"],
+)
+# the self-closing tag, for the call without overrides (the round trip's call; `tag_overrides[name](self, tag_overrides)` - a
+# mapping of callables - is outside the engine, so the contract is stated for `tag_overrides is None` only)
+contract(
+    "ext:Overrides.__contains__",
+    types={"__params__": ["self", "key"], "self": "Overrides", "key": "str"},
+    returns="bool", pure=True, trusted=True,
+)
+contract(
+    f"{M}:XTag.render",
+    requires=["tag_overrides is None"],
+    ensures=["result == '<' + self.name + (' ' if self.attrs else '') + str(self.attrs) + '/>'"],
+    pure=True, returns="str", types={"tag_overrides": "Overrides | None"}, properties=["C16"],
 )
 
 # ---- reset_children: replace the child list, claiming the parentless items (used by strip) -------------------------------
